@@ -254,6 +254,30 @@ class Ctx:
         shutil.rmtree(self.scratch, ignore_errors=True)
 
 
+def coqchk_module(module, timeout=3000):
+    """Independent re-check of the compiled module and everything it depends on (coqchk -o),
+    cached by the content hash of the .vo set.  Returns the context summary text."""
+    h = hashlib.sha256()
+    for sub in ("gen", "theories", "proofs", "props"):
+        d = os.path.join(COQ, sub)
+        for f in sorted(os.listdir(d)):
+            if f.endswith(".vo"):
+                h.update(f.encode())
+                h.update(open(os.path.join(d, f), "rb").read())
+    cdir = os.path.join(BUILD, "coqchk")
+    os.makedirs(cdir, exist_ok=True)
+    cf = os.path.join(cdir, "%s_%s.txt" % (module, h.hexdigest()[:16]))
+    if os.path.exists(cf):
+        return open(cf).read()
+    rc, out = sh(["coqchk", "-silent", "-o", "-R", COQ, "OL", module], cwd=COQ, timeout=timeout)
+    if rc != 0:
+        raise Broken("coqchk rejects " + module, out[-3000:])
+    i = out.find("CONTEXT SUMMARY")
+    txt = " ".join((out[i:] if i >= 0 else out).split())
+    open(cf, "w").write(txt)
+    return txt
+
+
 def prove(ctx, props_rel, deps_targets=None, extra_targets=()):
     """Steps 1-2 of the protocol: regenerate facts, build the dependencies, re-check the property file.
     Returns the list of theorem names.  Raises Broken when an obligation fails."""
@@ -274,6 +298,8 @@ def prove(ctx, props_rel, deps_targets=None, extra_targets=()):
     bad = grep_forbidden()
     if bad:
         raise Broken("forbidden construct in the development: " + "; ".join(bad[:5]))
+    if ctx.tier == "thorough":
+        ctx.coverage["coqchk"] = coqchk_module("OL." + props_rel.replace(".v", "").replace("/", "."))
     ctx.coverage["obligations"] = len(names)
     ctx.coverage["discharged"] = len(names)
     ctx.coverage["theorems"] = names
